@@ -59,8 +59,19 @@ class Harness:
 
             for inp in itertools.chain(cands, self.inputs(payload.get("tier", "quick"), payload.get("seed", 0))):
                 cases += 1
-                hit = [k for k, pred in self.known.items() if pred(inp)]
                 bad = self.check(inp)
+                hit = []
+                if bad:
+                    # a known finding is identified by the input class AND, where the predicate takes two arguments, by the clause
+                    # that fails: a different violation on the same input is still reported
+                    import inspect
+
+                    for k, pred in self.known.items():
+                        if len(inspect.signature(pred).parameters) >= 2:
+                            if pred(inp, bad):
+                                hit.append(k)
+                        elif pred(inp):
+                            hit.append(k)
                 if bad:
                     if hit:
                         known_hits.update(hit)
